@@ -6,6 +6,26 @@ addresses the rules name directly; every such group is `needed`.  Core Lean only
 -/
 namespace NA.PanOs
 
+theorem mem_of_map_eq_marks {α β : Type} {l l' : List α} {f : α → β} (h : l'.map f = l.map f) {x : α} (hx : x ∈ l') :
+    ∃ y ∈ l, f y = f x := by
+  have : f x ∈ l.map f := by rw [← h]; exact List.mem_map_of_mem hx
+  obtain ⟨y, hy, e⟩ := List.mem_map.mp this
+  exact ⟨y, hy, e⟩
+
+theorem mem_modAt_marks {α : Type} {l : List α} {i : Nat} {f : α → α} {x : α} (h : x ∈ modAt l i f) :
+    x ∈ l ∨ ∃ y, l[i]? = some y ∧ x = f y := by
+  obtain ⟨j, hj⟩ := List.getElem?_of_mem h
+  rw [modAt_getElem?] at hj
+  split at hj
+  · rename_i hji
+    subst hji
+    cases hy : l[j]? with
+    | none => simp [hy] at hj
+    | some y =>
+      simp only [hy, Option.map_some, Option.some.injEq] at hj
+      exact Or.inr ⟨y, rfl, hj.symm⟩
+  · exact Or.inl (List.mem_of_getElem? hj)
+
 /-- Members of the target group named `g` (none if `g` is not a group). -/
 def grpMembers (st : St) (g : String) : List String :=
   match st.bGrpIdx g with
@@ -315,5 +335,120 @@ theorem markObjects_grp_needed (fuel : Nat) : ∀ (rules : List Rule) (st : St) 
         obtain ⟨gb', hgb', _⟩ := gm.get hgb
         exact ⟨gb', hgb', gm.up gi gb gb' hgb hgb' hn⟩
     · exact ih _ r g gi hr hg (by rw [((g1.trans g2).trans g3).bIdx]; exact hgi)
+
+/-! ### Where `needed` of a group comes from -/
+
+theorem markAddrStep_plain_bGrp (fuel : Nat) (s : St) (x : String) (h : s.bGrpIdx x = none) :
+    (markAddrStep fuel s x).bGrp = s.bGrp := by
+  unfold markAddrStep
+  rw [h]
+  simp only
+  split
+  · rfl
+  · split
+    · split <;> rfl
+    · rfl
+
+theorem markAddrs_plain_bGrp : ∀ (fuel : Nat) (st : St) (l : List String), (∀ x ∈ l, st.bGrpIdx x = none) →
+    (markAddrs fuel st l).bGrp = st.bGrp := by
+  intro fuel
+  cases fuel with
+  | zero => intro st l _; rfl
+  | succ fuel =>
+    intro st l
+    rw [markAddrs_succ]
+    induction l generalizing st with
+    | nil => intro _; rfl
+    | cons x xs ih =>
+      intro h
+      simp only [List.foldl_cons]
+      have h1 := markAddrStep_plain_bGrp fuel st x (h x (by simp))
+      rw [ih _ (fun y hy => by
+        unfold St.bGrpIdx
+        rw [h1]
+        exact h y (List.mem_cons_of_mem _ hy)), h1]
+
+/-- `needed` of a target group only for groups with property `Ref`. -/
+def GProv (Ref : String → Prop) (st : St) : Prop := ∀ gb ∈ st.bGrp, gb.needed = true → Ref gb.g.name
+
+/-- No group is member of a group. -/
+def BPlain (st : St) : Prop := ∀ gb ∈ st.bGrp, ∀ m ∈ gb.g.members, st.bGrpIdx m = none
+
+theorem BPlain.of_bGrp {st st' : St} (h : st'.bGrp.map (·.g) = st.bGrp.map (·.g)) (hp : BPlain st) : BPlain st' := by
+  intro gb' hgb' m hm
+  obtain ⟨gb, hgb, e⟩ := mem_of_map_eq_marks h hgb'
+  have hidx : st'.bGrpIdx m = st.bGrpIdx m := by
+    unfold St.bGrpIdx
+    have := congrArg (List.map (·.name)) h
+    simp only [List.map_map, Function.comp_def] at this
+    rw [this]
+  rw [hidx]
+  exact hp gb hgb m (by rw [e]; exact hm)
+
+theorem markAddrs_gprov (Ref : String → Prop) : ∀ (fuel : Nat) (st : St) (l : List String), BPlain st →
+    (∀ x ∈ l, (st.bGrpIdx x).isSome → Ref x) → GProv Ref st → GProv Ref (markAddrs fuel st l) := by
+  intro fuel
+  cases fuel with
+  | zero => intro st l _ _ h; exact h
+  | succ fuel =>
+    intro st l
+    rw [markAddrs_succ]
+    induction l generalizing st with
+    | nil => intro _ _ h; exact h
+    | cons x xs ih =>
+      intro hp href hg
+      simp only [List.foldl_cons]
+      have hinv := markAddrStep_inv fuel st x
+      have hstep : GProv Ref (markAddrStep fuel st x) := by
+        cases hgi : st.bGrpIdx x with
+        | none => intro gb hgb hn; rw [markAddrStep_plain_bGrp fuel st x hgi] at hgb; exact hg gb hgb hn
+        | some gi =>
+          rw [markAddrStep_grp fuel st x gi hgi]
+          obtain ⟨gb0, hgb0, hname0⟩ := bGrp_of_idx_marks hgi
+          have hmembers : ∀ m ∈ grpMembers st x, st.bGrpIdx m = none := by
+            intro m hm
+            unfold grpMembers at hm
+            rw [hgi] at hm
+            simp only [hgb0, Option.map_some, Option.getD_some] at hm
+            exact hp gb0 (List.mem_of_getElem? hgb0) m hm
+          have hb := markAddrs_plain_bGrp fuel
+            { st with bGrp := modAt st.bGrp gi (fun g => { g with needed := true }) } (grpMembers st x) (fun m hm => by
+            have := ((markInv_bGrp st gi (fun g => { g with needed := true }) (fun _ => rfl)).idx m).2.2
+            rw [this]; exact hmembers m hm)
+          intro gb hgb hn
+          rw [hb] at hgb
+          rcases mem_modAt_marks hgb with h1 | ⟨y, hy, e⟩
+          · exact hg gb h1 hn
+          · rw [hgb0] at hy; cases hy
+            rw [e]
+            simp only
+            rw [hname0]
+            exact href x (by simp) (by simp [hgi])
+      exact ih _ (hp.of_bGrp hinv.2.2.1)
+        (fun y hy hs => href y (List.mem_cons_of_mem _ hy) (by rw [← (hinv.idx y).2.2]; exact hs)) hstep
+
+theorem markObjects_gprov (Ref : String → Prop) (fuel : Nat) : ∀ (rules : List Rule) (st : St), BPlain st →
+    (∀ r ∈ rules, ∀ x, (x ∈ r.src ∨ x ∈ r.dst) → (st.bGrpIdx x).isSome → Ref x) → GProv Ref st →
+    GProv Ref (markObjects fuel st rules) := by
+  intro rules
+  induction rules with
+  | nil => intro st _ _ h; exact h
+  | cons r rs ih =>
+    intro st hp href hg
+    unfold markObjects at ih ⊢
+    simp only [List.foldl_cons]
+    have i1 := markAddrs_inv fuel st r.src
+    have i2 := markAddrs_inv fuel (markAddrs fuel st r.src) r.dst
+    have i3 := markSrvs_inv fuel (markAddrs fuel (markAddrs fuel st r.src) r.dst) r.srv
+    have hall := (i1.trans i2).trans i3
+    have g1 := markAddrs_gprov Ref fuel st r.src hp (fun x hx hs => href r (by simp) x (Or.inl hx) hs) hg
+    have g2 := markAddrs_gprov Ref fuel _ r.dst (hp.of_bGrp i1.2.2.1)
+      (fun x hx hs => href r (by simp) x (Or.inr hx) (by rw [← (i1.idx x).2.2]; exact hs)) g1
+    have g3 : GProv Ref (markSrvs fuel (markAddrs fuel (markAddrs fuel st r.src) r.dst) r.srv) := by
+      intro gb hgb hn
+      rw [(markSrvs_addr fuel _ r.srv).2.2] at hgb
+      exact g2 gb hgb hn
+    exact ih _ (hp.of_bGrp hall.2.2.1)
+      (fun r' hr' x hx hs => href r' (List.mem_cons_of_mem _ hr') x hx (by rw [← (hall.idx x).2.2]; exact hs)) g3
 
 end NA.PanOs
